@@ -8,18 +8,18 @@ from . import common  # noqa: F401
 # `depth(x) >= 0` is the well-foundedness of containment established by
 # process_node, which only ever links a freshly created object to an older one)
 SpecFn(
-    "depth", [("x", "any")], "int", heap=True,
+    "depth", [("x", "any")], "int", reads=["parent"],
     defn="(depth(x.parent) + 1) if hasattr(x, 'parent') else 0",
     facts=["depth(x) >= 0"],
 )
 # the model root: the ancestor-or-self that has no parent
 SpecFn(
-    "root_of", [("x", "any")], "any", heap=True,
+    "root_of", [("x", "any")], "any", reads=["parent"],
     defn="root_of(x.parent) if hasattr(x, 'parent') else x",
 )
 # nearest proper ancestor whose class name is typ (None if there is none)
 SpecFn(
-    "anc_of_type", [("x", "any"), ("typ", "str")], "any", heap=True,
+    "anc_of_type", [("x", "any"), ("typ", "str")], "any", reads=["parent", "__name__"],
     defn="(x.parent if x.parent.__class__.__name__ == typ else anc_of_type(x.parent, typ))"
          " if hasattr(x, 'parent') else None",
 )
@@ -36,9 +36,10 @@ Unit(
     loops={
         "while:hasattr(p, 'parent')": Loop(
             inv=["root_of(p) == root_of(obj)", "depth(p) >= 0"],
-            variant="depth(p)",
+            variant="depth(p)", preserves=["parent", "__name__"], pure=True,
         )
     },
+    preserves=["parent", "__name__", "_tx_inh_by", "_tx_fqn", "[]"],
     canary="result == obj",
 )
 
@@ -53,8 +54,9 @@ Unit(
     loops={
         "while:hasattr(obj, 'parent')": Loop(
             inv=["anc_of_type(obj, as_str(typ)) == anc_of_type(entry_obj, as_str(typ))", "depth(obj) >= 0"],
-            variant="depth(obj)",
+            variant="depth(obj)", preserves=["parent", "__name__"], pure=True,
         )
     },
+    preserves=["parent", "__name__", "_tx_inh_by", "_tx_fqn", "[]"],
     canary="result is None",
 )
